@@ -69,6 +69,20 @@ func c15Begin(class int) {
 
 func c15UE(name string, max uint64) c15V { return c15Elem(name, max, false) }
 
+// c15Free draws a code number whose length is not tied to the instance's class (one path per
+// code length): used where the value is forced by a constraint of the syntax.
+func c15Free(name string, max uint64) c15V {
+	maxM := 0
+	for (uint64(1)<<uint(maxM+1))-1 <= max {
+		maxM++
+	}
+	m := vfy.Choose(name+".m", maxM+1)
+	info := uint64(vfy.U16(name)) & ((1 << uint(m)) - 1)
+	v := ((1 << uint(m)) | info) - 1
+	vfy.Assume(v <= max)
+	return c15V{v, m}
+}
+
 // c15SE draws the code number of a se(v) element.
 func c15SE(name string, max uint64) c15V { return c15Elem(name, max, true) }
 
@@ -133,7 +147,188 @@ type c15SPS struct {
 	cl, cr, ct, cb                            c15V
 	vui, arPresent, extSAR, timing, fixedRate bool
 	arIDC, sarW, sarH, unitsInTick, timeScale uint64
+	scaling                                   []*c15SL // nil: seq_scaling_matrix_present_flag = 0
+	x                                         *c15VUIExt
 }
+
+// c15SL is one scaling_list() (7.3.2.1.1.1) as coded; want is the list the syntax derives.
+type c15SL struct {
+	present bool
+	deltas  []c15V // delta_scale se(v) code numbers, in coding order
+	want    []int64
+	check   bool // compare the parsed list (false when the default matrix is signalled)
+}
+
+// c15GenSL draws a scaling list of the given size. kind 0: absent; 1: first delta makes nextScale
+// 0 (default matrix); 2: every coefficient coded and non-zero; 3: three coded, the fourth delta
+// brings nextScale to 0 so the rest repeats the last value.
+func c15GenSL(size, kind int) *c15SL {
+	if size == 64 && kind == 2 {
+		kind = 3 // 64 coded coefficients are out of reach; the 8x8 lists use the short forms
+	}
+	l := &c15SL{present: kind != 0}
+	last := int64(8)
+	coded := map[int]int{1: 1, 2: size, 3: 4}[kind]
+	stopped := false // nextScale == 0: no further delta_scale is coded
+	for j := 0; j < size; j++ {
+		v := last
+		if j < coded {
+			stop := (kind == 1 && j == 0) || (kind == 3 && j == 3)
+			var d c15V
+			if stop && kind == 1 {
+				d = c15C(16) // delta_scale = -8: nextScale = 0 at j = 0
+			} else if stop {
+				d = c15Free("delta_scale.stop", 255) // its value is forced by nextScale == 0
+			} else {
+				d = c15SE("delta_scale", 200)
+			}
+			l.deltas = append(l.deltas, d)
+			next := (last + d.signed() + 256) % 256
+			if stop {
+				vfy.Assume(next == 0)
+				stopped = true
+			} else {
+				vfy.Assume(next != 0)
+				v = next
+			}
+		} else if !stopped && kind != 0 {
+			panic("harness: scaling list shape")
+		}
+		l.want = append(l.want, v)
+		last = v
+	}
+	l.check = kind == 2 || kind == 3
+	return l
+}
+
+func (l *c15SL) write(w *c15Bits) {
+	w.flag(l.present)
+	for _, d := range l.deltas {
+		w.ue(d) // se(v)
+	}
+}
+
+func (l *c15SL) compare(got ScalingList, what string) {
+	if !l.present {
+		vfy.Assert(got == nil, what+": absent list is nil")
+		return
+	}
+	if !l.check {
+		return
+	}
+	vfy.Assert(len(got) == len(l.want), what+": list length")
+	if len(got) == len(l.want) {
+		for j := range l.want {
+			vfy.Assert(int64(got[j]) == l.want[j], what+": scaling list coefficient")
+		}
+	}
+}
+
+type c15HRD struct {
+	cpbCnt                     int
+	brScale, cpbScale          uint64
+	br, cpb                    []c15V
+	cbr                        []bool
+	initLen, remLen, dpbLen, tol uint64
+}
+
+func c15GenHRD(n int) *c15HRD {
+	h := &c15HRD{cpbCnt: n, brScale: uint64(vfy.U8("brscale")) & 15, cpbScale: uint64(vfy.U8("cpbscale")) & 15}
+	for i := 0; i < n; i++ {
+		h.br, h.cpb, h.cbr = append(h.br, c15UE("bitrate", 100000)), append(h.cpb, c15UE("cpbsize", 100000)), append(h.cbr, vfy.Bool("cbr"))
+	}
+	h.initLen, h.remLen, h.dpbLen, h.tol = uint64(vfy.U8("initlen"))&31, uint64(vfy.U8("remlen"))&31, uint64(vfy.U8("dpblen"))&31, uint64(vfy.U8("tol"))&31
+	return h
+}
+
+func (h *c15HRD) write(w *c15Bits) {
+	w.ue(c15C(uint64(h.cpbCnt - 1)))
+	w.u(h.brScale, 4)
+	w.u(h.cpbScale, 4)
+	for i := 0; i < h.cpbCnt; i++ {
+		w.ue(h.br[i])
+		w.ue(h.cpb[i])
+		w.flag(h.cbr[i])
+	}
+	w.u(h.initLen, 5)
+	w.u(h.remLen, 5)
+	w.u(h.dpbLen, 5)
+	w.u(h.tol, 5)
+}
+
+func (h *c15HRD) compare(got *HrdParameters, what string) {
+	vfy.Assert(got != nil, what+" present")
+	if got == nil {
+		return
+	}
+	ok := int(got.CpbCountMinus1) == h.cpbCnt-1 && len(got.CpbEntries) == h.cpbCnt
+	vfy.Assert(ok, what+": cpb_cnt_minus1")
+	vfy.Assert(uint64(got.BitRateScale) == h.brScale && uint64(got.CpbSizeScale) == h.cpbScale, what+": scales")
+	if ok {
+		for i := 0; i < h.cpbCnt; i++ {
+			e := got.CpbEntries[i]
+			vfy.Assert(uint64(e.BitRateValueMinus1) == h.br[i].v && uint64(e.CpbSizeValueMinus1) == h.cpb[i].v && e.CbrFlag == h.cbr[i], what+": cpb entry")
+		}
+	}
+	vfy.Assert(uint64(got.InitialCpbRemovalDelayLengthMinus1) == h.initLen && uint64(got.CpbRemovalDelayLengthMinus1) == h.remLen &&
+		uint64(got.DpbOutputDelayLengthMinus1) == h.dpbLen && uint64(got.TimeOffsetLength) == h.tol, what+": delay lengths")
+}
+
+// c15VUIExt: the VUI syntax elements beyond aspect ratio and timing (E.1.1)
+type c15VUIExt struct {
+	overscan, overscanOK                       bool
+	videoSignal, fullRange, colourDesc         bool
+	videoFormat, prim, transfer, matrix        uint64
+	chromaLoc                                  bool
+	locTop, locBottom                          c15V
+	nalHRD, vclHRD                             *c15HRD
+	lowDelay, picStruct, restriction, mvOverPic bool
+	br                                         [6]c15V
+}
+
+func c15GenVUIExt(shape int) *c15VUIExt {
+	x := &c15VUIExt{}
+	x.overscan = shape&2 != 0
+	if x.overscan {
+		x.overscanOK = vfy.Bool("overscanok")
+	}
+	x.videoSignal = shape&4 != 0
+	if x.videoSignal {
+		x.videoFormat, x.fullRange = uint64(vfy.U8("vformat"))&7, vfy.Bool("fullrange")
+		x.colourDesc = shape&8 != 0
+		if x.colourDesc {
+			x.prim, x.transfer, x.matrix = uint64(vfy.U8("prim")), uint64(vfy.U8("transfer")), uint64(vfy.U8("matrix"))
+		}
+	}
+	x.chromaLoc = shape&16 != 0
+	if x.chromaLoc {
+		x.locTop, x.locBottom = c15UE("loctop", 5), c15UE("locbottom", 5)
+	}
+	n := 1
+	if shape&512 != 0 {
+		n = 2
+	}
+	if shape&32 != 0 {
+		x.nalHRD = c15GenHRD(n)
+	}
+	if shape&64 != 0 {
+		x.vclHRD = c15GenHRD(3 - n)
+	}
+	if x.nalHRD != nil || x.vclHRD != nil {
+		x.lowDelay = vfy.Bool("lowdelay")
+	}
+	x.picStruct = vfy.Bool("picstruct")
+	x.restriction = shape&256 != 0
+	if x.restriction {
+		x.mvOverPic = vfy.Bool("mvoverpic")
+		x.br = [6]c15V{c15UE("maxbytes", 16), c15UE("maxbits", 16), c15UE("log2mvh", 16), c15UE("log2mvv", 16), c15UE("reorder", 16), c15UE("decbuf", 16)}
+	}
+	return x
+}
+
+// c15FixChroma >= 0 pins chroma_format_idc (and the widths drawn for slice headers) so that the
+// harnesses of the extended syntax do not multiply their paths by choices they do not look at.
+var c15FixChroma = -1
 
 // c15GenSPS draws an SPS: structure from the variant, values symbolic.
 func c15GenSPS(variant int, concreteLog2 bool) *c15SPS {
@@ -155,9 +350,13 @@ func c15GenSPS(variant int, concreteLog2 bool) *c15SPS {
 	s.id = c15UE("spsid", 31)
 	s.chroma = c15C(1)
 	if s.highProfile {
-		s.chroma = c15C(uint64(vfy.Choose("chroma", 4)))
-		if s.chroma.v == 3 {
-			s.sepPlane = vfy.Choose("sep", 2) == 1
+		if c15FixChroma >= 0 {
+			s.chroma = c15C(uint64(c15FixChroma))
+		} else {
+			s.chroma = c15C(uint64(vfy.Choose("chroma", 4)))
+			if s.chroma.v == 3 {
+				s.sepPlane = vfy.Choose("sep", 2) == 1
+			}
 		}
 		s.bdl, s.bdc = c15UE("bdl", 6), c15UE("bdc", 6)
 		s.qpprime = vfy.Bool("qpprime")
@@ -165,7 +364,9 @@ func c15GenSPS(variant int, concreteLog2 bool) *c15SPS {
 	s.log2fn = c15UE("log2fn", 12)
 	log2c := 0
 	if concreteLog2 { // decides the widths of frame_num and pic_order_cnt_lsb in slice headers
-		log2c = vfy.Choose("log2.c", 3)
+		if c15FixChroma < 0 {
+			log2c = vfy.Choose("log2.c", 3)
+		}
 		s.log2fn = c15C([]uint64{0, 5, 12}[log2c])
 	}
 	s.pocType = c15C(uint64((variant >> 1) % 3))
@@ -239,7 +440,10 @@ func (s *c15SPS) serialize() []byte {
 		w.ue(s.bdl)
 		w.ue(s.bdc)
 		w.flag(s.qpprime)
-		w.flag(false) // seq_scaling_matrix_present_flag
+		w.flag(s.scaling != nil) // seq_scaling_matrix_present_flag
+		for _, l := range s.scaling {
+			l.write(w)
+		}
 	}
 	w.ue(s.log2fn)
 	w.ue(s.pocType)
@@ -281,19 +485,55 @@ func (s *c15SPS) serialize() []byte {
 				w.u(s.sarH, 16)
 			}
 		}
-		w.flag(false) // overscan_info_present_flag
-		w.flag(false) // video_signal_type_present_flag
-		w.flag(false) // chroma_loc_info_present_flag
+		x := s.x
+		if x == nil {
+			x = &c15VUIExt{}
+		}
+		w.flag(x.overscan)
+		if x.overscan {
+			w.flag(x.overscanOK)
+		}
+		w.flag(x.videoSignal)
+		if x.videoSignal {
+			w.u(x.videoFormat, 3)
+			w.flag(x.fullRange)
+			w.flag(x.colourDesc)
+			if x.colourDesc {
+				w.u(x.prim, 8)
+				w.u(x.transfer, 8)
+				w.u(x.matrix, 8)
+			}
+		}
+		w.flag(x.chromaLoc)
+		if x.chromaLoc {
+			w.ue(x.locTop)
+			w.ue(x.locBottom)
+		}
 		w.flag(s.timing)
 		if s.timing {
 			w.u(s.unitsInTick, 32)
 			w.u(s.timeScale, 32)
 			w.flag(s.fixedRate)
 		}
-		w.flag(false) // nal_hrd_parameters_present_flag
-		w.flag(false) // vcl_hrd_parameters_present_flag
-		w.flag(false) // pic_struct_present_flag
-		w.flag(false) // bitstream_restriction_flag
+		w.flag(x.nalHRD != nil)
+		if x.nalHRD != nil {
+			x.nalHRD.write(w)
+		}
+		w.flag(x.vclHRD != nil)
+		if x.vclHRD != nil {
+			x.vclHRD.write(w)
+		}
+		if x.nalHRD != nil || x.vclHRD != nil {
+			w.flag(x.lowDelay)
+		}
+		w.flag(x.picStruct)
+		w.flag(x.restriction)
+		if x.restriction {
+			w.flag(x.mvOverPic)
+			for _, e := range x.br {
+				w.ue(e)
+			}
+		}
 	}
 	return w.bytes(0x67)
 }
@@ -401,6 +641,7 @@ type c15PPS struct {
 	deblock, constrained, redundant, t8x8 bool
 	more                                  bool
 	cqp2                                  c15V
+	scaling                               []*c15SL // nil: pic_scaling_matrix_present_flag = 0
 }
 
 func c15GenPPS(spsID c15V, more bool) *c15PPS {
@@ -438,8 +679,11 @@ func (p *c15PPS) serialize() []byte {
 	w.flag(p.redundant)
 	if p.more {
 		w.flag(p.t8x8)
-		w.flag(false) // pic_scaling_matrix_present_flag
-		w.ue(p.cqp2)  // se(v)
+		w.flag(p.scaling != nil) // pic_scaling_matrix_present_flag
+		for _, l := range p.scaling {
+			l.write(w)
+		}
+		w.ue(p.cqp2) // se(v)
 	}
 	return w.bytes(0x68)
 }
@@ -606,4 +850,137 @@ func VerifC15Config(variant, class int) {
 		vfy.Assert(cs == string(want), "codec string avc1.PPCCLL")
 	}
 	vfy.Cover("config compared")
+}
+
+
+// VerifC15SPSExt: a High-profile SPS with a scaling matrix and the full VUI (overscan, video
+// signal, chroma location, NAL / VCL HRD parameters, pic_struct, bitstream restriction).
+// shape: 1 scaling matrix, 2 overscan, 4 video signal (+8 colour description), 16 chroma loc,
+// 32 NAL HRD, 64 VCL HRD, 256 bitstream restriction, 512 two CPB entries in the NAL HRD,
+// 1024 chroma_format_idc 3 (12 scaling lists).
+func VerifC15SPSExt(shape, class int) {
+	c15Begin(class)
+	c15FixChroma = 1
+	if shape&1024 != 0 {
+		c15FixChroma = 3
+	}
+	s := c15GenSPS(1+32, true) // high profile, poc type 0, frames only, VUI
+	c15FixChroma = -1
+	if shape&1 != 0 {
+		n := 8
+		if s.chroma.v == 3 {
+			n = 12
+		}
+		kinds := []int{2, 0, 1, 0, 0, 3, 1, 0, 0, 1, 0, 3}
+		for i := 0; i < n; i++ {
+			size := 16
+			if i >= 6 {
+				size = 64
+			}
+			s.scaling = append(s.scaling, c15GenSL(size, kinds[(i+shape/2048)%12]))
+		}
+	}
+	s.x = c15GenVUIExt(shape)
+	nalu := s.serialize()
+	got, err := ParseSPSNALUnit(nalu, true)
+	vfy.Assert(err == nil, "serialized SPS parses")
+	if err != nil {
+		return
+	}
+	s.compare(got)
+	vfy.Assert(got.SeqScalingMatrixPresentFlag == (s.scaling != nil), "seq_scaling_matrix_present_flag")
+	if s.scaling != nil {
+		vfy.Assert(len(got.SeqScalingLists) == len(s.scaling), "number of scaling lists")
+		if len(got.SeqScalingLists) == len(s.scaling) {
+			for i, l := range s.scaling {
+				l.compare(got.SeqScalingLists[i], "seq scaling list")
+			}
+		}
+	}
+	x, v := s.x, got.VUI
+	vfy.Assert(v != nil, "VUI present")
+	if v == nil {
+		return
+	}
+	vfy.Assert(v.OverscanInfoPresentFlag == x.overscan && v.OverscanAppropriateFlag == x.overscanOK, "overscan info")
+	vfy.Assert(v.VideoSignalTypePresentFlag == x.videoSignal, "video_signal_type_present_flag")
+	if x.videoSignal {
+		vfy.Assert(uint64(v.VideoFormat) == x.videoFormat && v.VideoFullRangeFlag == x.fullRange && v.ColourDescriptionFlag == x.colourDesc, "video format / full range / colour description flag")
+		if x.colourDesc {
+			vfy.Assert(uint64(v.ColourPrimaries) == x.prim && uint64(v.TransferCharacteristics) == x.transfer && uint64(v.MatrixCoefficients) == x.matrix, "colour description")
+		}
+	}
+	vfy.Assert(v.ChromaLocInfoPresentFlag == x.chromaLoc, "chroma_loc_info_present_flag")
+	if x.chromaLoc {
+		vfy.Assert(uint64(v.ChromaSampleLocTypeTopField) == x.locTop.v && uint64(v.ChromaSampleLocTypeBottomField) == x.locBottom.v, "chroma sample loc types")
+	}
+	vfy.Assert(v.NalHrdParametersPresentFlag == (x.nalHRD != nil) && v.VclHrdParametersPresentFlag == (x.vclHRD != nil), "hrd present flags")
+	if x.nalHRD != nil {
+		x.nalHRD.compare(v.NalHrdParameters, "nal hrd")
+	}
+	if x.vclHRD != nil {
+		x.vclHRD.compare(v.VclHrdParameters, "vcl hrd")
+	}
+	vfy.Assert(v.LowDelayHrdFlag == x.lowDelay && v.PicStructPresentFlag == x.picStruct, "low_delay_hrd_flag / pic_struct_present_flag")
+	vfy.Assert(v.BitstreamRestrictionFlag == x.restriction, "bitstream_restriction_flag")
+	if x.restriction {
+		vfy.Assert(v.MotionVectorsOverPicBoundariesFlag == x.mvOverPic && uint64(v.MaxBytesPerPicDenom) == x.br[0].v && uint64(v.MaxBitsPerMbDenom) == x.br[1].v &&
+			uint64(v.Log2MaxMvLengthHorizontal) == x.br[2].v && uint64(v.Log2MaxMvLengthVertical) == x.br[3].v &&
+			uint64(v.MaxNumReorderFrames) == x.br[4].v && uint64(v.MaxDecFrameBuffering) == x.br[5].v, "bitstream restriction values")
+	}
+	vfy.Cover("sps ext compared")
+}
+
+// VerifC15PPSExt: a PPS with a picture scaling matrix; the number of lists is 6 plus, with
+// transform_8x8_mode_flag, 2 (chroma_format_idc != 3) or 6 (7.3.2.2).
+// shape: 1 transform_8x8_mode_flag, 2 chroma_format_idc 3, /4: rotation of the list kinds.
+func VerifC15PPSExt(shape, class int) {
+	c15Begin(class)
+	c15FixChroma = 1
+	if shape&2 != 0 {
+		c15FixChroma = 3
+	}
+	s := c15GenSPS(1, true)
+	c15FixChroma = -1
+	spsNalu := s.serialize()
+	sps, err := ParseSPSNALUnit(spsNalu, true)
+	vfy.Assert(err == nil, "SPS parses")
+	if err != nil {
+		return
+	}
+	spsMap := map[uint32]*SPS{uint32(sps.ParameterID): sps}
+	p := c15GenPPS(s.id, true)
+	t8 := shape&1 != 0
+	p.t8x8 = t8
+	n := 6
+	if t8 {
+		if s.chroma.v != 3 {
+			n += 2
+		} else {
+			n += 6
+		}
+	}
+	kinds := []int{2, 0, 1, 3, 0, 0, 1, 0, 1, 0, 0, 3}
+	for i := 0; i < n; i++ {
+		size := 16
+		if i >= 6 {
+			size = 64
+		}
+		p.scaling = append(p.scaling, c15GenSL(size, kinds[(i+shape/4)%12]))
+	}
+	ppsNalu := p.serialize()
+	pps, err := ParsePPSNALUnit(ppsNalu, spsMap)
+	vfy.Assert(err == nil, "serialized PPS with a scaling matrix parses")
+	if err != nil {
+		return
+	}
+	vfy.Assert(pps.Transform8x8ModeFlag == t8 && pps.PicScalingMatrixPresentFlag, "transform_8x8_mode_flag / pic_scaling_matrix_present_flag")
+	vfy.Assert(int64(pps.SecondChromaQpIndexOffset) == p.cqp2.signed(), "second_chroma_qp_index_offset (after the scaling lists)")
+	vfy.Assert(len(pps.PicScalingLists) == n, "number of picture scaling lists")
+	if len(pps.PicScalingLists) == n {
+		for i, l := range p.scaling {
+			l.compare(pps.PicScalingLists[i], "pic scaling list")
+		}
+	}
+	vfy.Cover("pps ext compared")
 }
